@@ -34,13 +34,15 @@ type Step struct {
 }
 
 type Behaviour struct {
-	Standby  bool   `json:"standby"`
-	TimerMay bool   `json:"timerMay"`
-	Order    string `json:"order"`
-	Lazy     bool   `json:"lazy"`     // the caller reaches its select only after the script (gated ctx.Done)
-	ErrResp  bool   `json:"err_resp"` // concretization: an "err" outcome stores a response before returning the error
-	Result   string `json:"result"`
-	Steps    []Step `json:"steps"`
+	Standby     bool   `json:"standby"`
+	TimerMay    bool   `json:"timerMay"`
+	Order       string `json:"order"`
+	Lazy        bool   `json:"lazy"`          // the caller reaches its select only after the script (gated ctx.Done)
+	ErrResp     bool   `json:"err_resp"`      // concretization: an "err" outcome stores a response before returning the error
+	CtxDdlMs    int    `json:"ctx_ddl_ms"`    // concretization: the caller's context carries a (far) deadline of this many ms
+	PrimDelayMs int    `json:"prim_delay_ms"` // concretization: the primary's Exec returns only after this real delay (well inside a long threshold)
+	Result      string `json:"result"`
+	Steps       []Step `json:"steps"`
 }
 
 type Job struct {
@@ -428,6 +430,11 @@ func runOne(idx int, b *Behaviour, kind string, job *Job, rng *rand.Rand) Result
 
 	ctx0, cancel := context.WithCancel(context.Background())
 	defer cancel()
+	if b.CtxDdlMs > 0 && kind == "replay" {
+		var cancelD context.CancelFunc
+		ctx0, cancelD = context.WithDeadline(ctx0, time.Now().Add(time.Duration(b.CtxDdlMs)*time.Millisecond))
+		defer cancelD()
+	}
 	var ctx context.Context = ctx0
 	lazyGate := make(chan struct{})
 	openLazy := sync.OnceFunc(func() { close(lazyGate) })
@@ -507,6 +514,11 @@ func runOne(idx int, b *Behaviour, kind string, job *Job, rng *rand.Rand) Result
 					want = "queued"
 				}
 				if o, ok := r.pending["prim"]; ok { // first publication step: let primary.Exec return
+					if b.PrimDelayMs > 0 {
+						if d := time.Duration(b.PrimDelayMs)*time.Millisecond - time.Since(c.start); d > 0 {
+							time.Sleep(d)
+						}
+					}
 					if !r.ensureAtExec("prim") {
 						diverge(i, "primary not at Exec gate")
 						break steps
